@@ -26,7 +26,7 @@ SERVICE = 'Carrier'
 OWN_GRPC_PREFIX = f'/{PKG}.'          # any service of the carrier API itself
 OWN_REST_PREFIX = '/own/'
 IAM = ('SetIamPolicy', 'GetIamPolicy', 'TestIamPermissions')
-MUTANTS = ['no_yield', 'last_service_decides', 'ignore_apis', 'expose_without_rule', 'async_lacks_one', 'legacy_sync_only', 'wrong_path',
+MUTANTS = ['no_yield', 'last_service_decides', 'yield_to_any_iam_name', 'sorted_bindings', 'ignore_apis', 'expose_without_rule', 'async_lacks_one', 'legacy_sync_only', 'wrong_path',
            'raw_response', 'header_name_for_iam', 'no_header', 'rest_wrong_verb', 'rest_drops_body']
 CALL_FIELDS = ('svc', 'm', 'kind', 'via', 'path', 'reqtype', 'resptype', 'hkey', 'hval', 'verb', 'body', 'extra')
 ASPECT = dict(via='own-rpc', path='path', reqtype='request-type', resptype='response-type', hkey='routing-header',
@@ -39,7 +39,7 @@ def module_of(tmpl):
 
 
 def carrier_api(case):
-    """service Carrier with two unary methods (http rules); when `own`, it declares the three IAM RPCs itself, with the
+    """service Carrier with two unary methods (http rules); it declares the IAM-named RPCs of case['own'] itself, with the
     google.iam.v1 types and http rules under /own/ (so that the projection can tell them from the mixin rules).  In the
     two-service layouts a second service Other (ordinary RPCs only) is declared after / before it: case['services'] is the
     declaration order."""
@@ -47,8 +47,8 @@ def carrier_api(case):
             dict(name='GetThingRequest', fields=[dict(name='name')])]
     methods = [dict(name='GetThing', **{'in': 'GetThingRequest', 'out': 'Thing'}, http=[dict(verb='get', uri='/v1/{name=things/*}')]),
                dict(name='MakeThing', **{'in': 'Thing', 'out': 'Thing'}, http=[dict(verb='post', uri='/v1/things', body='*')])]
-    if case['own']:
-        for m, out in (('SetIamPolicy', 'Policy'), ('GetIamPolicy', 'Policy'), ('TestIamPermissions', 'TestIamPermissionsResponse')):
+    for m, out in (('SetIamPolicy', 'Policy'), ('GetIamPolicy', 'Policy'), ('TestIamPermissions', 'TestIamPermissionsResponse')):
+        if m in case['own']:
             methods.append(dict(name=m, **{'in': f'google.iam.v1.{m}Request', 'out': f'google.iam.v1.{out}'},
                                 http=[dict(verb='post', uri='/own/v1/{resource=things/*}:' + m[0].lower() + m[1:], body='*')]))
     other = [dict(name='GetWidget', **{'in': 'GetThingRequest', 'out': 'Thing'}, http=[dict(verb='get', uri='/v1/{name=widgets/*}')]),
@@ -64,6 +64,11 @@ def yaml_of(case):
         d = {'selector': r['selector'], r['verb']: r['uri']}
         if r['body']:
             d['body'] = r['body']
+        for a in r['additional']:
+            b = {a['verb']: a['uri']}
+            if a['body']:
+                b['body'] = a['body']
+            d.setdefault('additional_bindings', []).append(b)
         rules.append(d)
     return {'type': 'google.api.Service', 'config_version': 3, 'name': 'lib.example.com',
             'apis': [{'name': a} for a in case['apis']], 'http': {'rules': rules}}
@@ -81,17 +86,30 @@ def options_of(case):
 def cfg_key(c):
     api = ''.join(a.split('.')[-1][0] for a in c['apis']) or '-'          # O / I / L
     rules = ''.join(str(c['rulecode'][r['rpc']]) for r in c['table'])
-    mode = {'single': 'own', 'own_first': 'own-first', 'own_last': 'own-last'}[c['layout']] if c['own'] else \
-        'legacy' if c['legacy'] else 'plain'
+    mode = own_label(c) if c['own'] else 'legacy' if c['legacy'] else 'plain'
+    if c['addl'] != 'none':
+        rules += '+' + c['addl']
     return (f"{c['tmpl']}/apis={api}/rules={rules}/{mode}/"
             f"{'+'.join(c['transports'])}")
 
 
+def own_label(case):
+    """own | own-first | own-last, with the declared names when they are not all three: own[T], own[SG] .."""
+    lab = {'single': 'own', 'own_first': 'own-first', 'own_last': 'own-last'}[case['layout']]
+    if len(case['own']) < 3:
+        lab += '[' + ''.join(m[0] for m in case['own']) + ']'
+    return lab
+
+
 def origin(case, rpc):
+    """why the RPC is (not) expected on the clients: legacy option, an own RPC of that name, a configured mixin next to own
+    RPCs of OTHER IAM names, or plainly the YAML."""
     if case['legacy'] and rpc in IAM:
         return 'legacy'
+    if rpc in case['own']:
+        return own_label(case)
     if case['own'] and rpc in IAM:
-        return {'single': 'own', 'own_first': 'own-first', 'own_last': 'own-last'}[case['layout']]
+        return 'yaml-beside-' + own_label(case)
     return 'yaml'
 
 
@@ -244,7 +262,7 @@ def keys_of(diffs):
 
 
 def trace_cfg(case):
-    return dict(apis=case['apis'], rulecode=case['rulecode'], own=case['own'], layout=case['layout'], legacy=case['legacy'], tmpl=case['tmpl'],
+    return dict(apis=case['apis'], rulecode=case['rulecode'], addl=case['addl'], own=case['own'], layout=case['layout'], legacy=case['legacy'], tmpl=case['tmpl'],
                 transports=case['transports'], clients=case['clients'])
 
 
@@ -252,13 +270,24 @@ def pick_quick(keys, by_key, rnd, n=36):
     """fixed corners + a seeded sample."""
     def find(pred, tmpl='default'):
         return next(k for k in keys if by_key[k][0]['tmpl'] == tmpl and pred(by_key[k][0]))
-    full = lambda c, v: all(x == v for x in c['rulecode'].values())
+    allv = lambda c, v: all(x == v for x in c['rulecode'].values())
+    full = lambda c, v: allv(c, v) and c['addl'] == 'none'
     corners = [
         find(lambda c: len(c['apis']) == 3 and full(c, 1) and not c['own'] and not c['legacy'] and c['transports'] == ['grpc', 'rest']),
         find(lambda c: len(c['apis']) == 3 and full(c, 2) and not c['own'] and not c['legacy'] and c['transports'] == ['grpc', 'rest']),
-        find(lambda c: len(c['apis']) == 3 and full(c, 1) and c['own'] and c['layout'] == 'single' and c['transports'] == ['grpc', 'rest']),
-        find(lambda c: len(c['apis']) == 3 and full(c, 1) and c['own'] and c['layout'] == 'own_first' and c['transports'] == ['grpc', 'rest']),
-        find(lambda c: len(c['apis']) == 3 and full(c, 1) and c['own'] and c['layout'] == 'own_last' and c['transports'] == ['grpc', 'rest']),
+        find(lambda c: len(c['apis']) == 3 and full(c, 1) and len(c['own']) == 3 and c['layout'] == 'single' and c['transports'] == ['grpc', 'rest']),
+        find(lambda c: len(c['apis']) == 3 and full(c, 1) and len(c['own']) == 3 and c['layout'] == 'own_first' and c['transports'] == ['grpc', 'rest']),
+        find(lambda c: len(c['apis']) == 3 and full(c, 1) and len(c['own']) == 3 and c['layout'] == 'own_last' and c['transports'] == ['grpc', 'rest']),
+        # an own RPC whose name is NOT a configured mixin RPC (rules for Set/Get only, own TestIamPermissions) ...
+        find(lambda c: len(c['apis']) == 3 and c['own'] == ['TestIamPermissions'] and c['rulecode']['SetIamPolicy'] and
+             c['rulecode']['GetIamPolicy'] and not c['rulecode']['TestIamPermissions']),
+        # ... and one whose name is (rules for all, own SetIamPolicy)
+        find(lambda c: len(c['apis']) == 3 and full(c, 1) and c['own'] == ['SetIamPolicy']),
+        # additional bindings that sort before / after the primary one
+        find(lambda c: len(c['apis']) == 3 and allv(c, 1) and c['addl'] == 'before' and not c['own'] and not c['legacy']
+             and c['transports'] == ['grpc', 'rest']),
+        find(lambda c: len(c['apis']) == 3 and allv(c, 2) and c['addl'] == 'after' and not c['own'] and not c['legacy']
+             and c['transports'] == ['grpc', 'rest']),
         find(lambda c: len(c['apis']) == 3 and full(c, 1) and c['legacy'] and c['transports'] == ['grpc', 'rest']),
         find(lambda c: len(c['apis']) == 0 and full(c, 0) and c['legacy'] and c['transports'] == ['grpc']),
         find(lambda c: len(c['apis']) == 0 and full(c, 1) and not c['own'] and not c['legacy'] and c['transports'] == ['grpc', 'rest']),
@@ -268,6 +297,7 @@ def pick_quick(keys, by_key, rnd, n=36):
              tmpl='ads'),
     ]
     rest = [k for k in keys if k not in corners]
+    assert len(set(corners)) == len(corners), corners
     return corners + rnd.sample(rest, max(0, n - len(corners)))
 
 
@@ -282,7 +312,7 @@ def main(chk, args):
         return tlc.run('Mixins', base_cfg.replace('Mutant = "none"', f'Mutant = "{m}"'), deadlock=False, workers=2, timeout=600)
     with ThreadPoolExecutor(6) as ex:
         f_model = ex.submit(tlc.run, 'Mixins', 'Mixins.small.cfg' if quick else 'Mixins.full.cfg', deadlock=False,
-                            workers=4 if quick else 16, timeout=1500)
+                            workers=4 if quick else 8, timeout=1500)
         f_emit = ex.submit(tlc.emit_cases, 'Mixins', 'Mixins.emit.quick.cfg' if quick else 'Mixins.emit.thorough.cfg',
                            deadlock=False, timeout=1500)
         f_muts = [(m, ex.submit(run_mutant, m)) for m in muts]
@@ -306,7 +336,7 @@ def main(chk, args):
     # 3. generate + drive, one library per configuration
     jobs = [(k, by_key[k][0]) for k in keys]
     results = {}
-    with ProcessPoolExecutor(int(os.environ.get('VERIF_C17_PROCS', '12'))) as ex:
+    with ProcessPoolExecutor(int(os.environ.get('VERIF_C17_PROCS', '8'))) as ex:
         for out in ex.map(_work, jobs, chunksize=1):
             results[out['key']] = out
     # 4. compare + build traces
@@ -402,12 +432,15 @@ def main(chk, args):
     chk.assumptions += [
         'loopback grpc / http servers; requests decoded with the installed google.longrunning / google.iam.v1 / google.cloud.location '
         'pb2 descriptors (the input descriptors of the mixin APIs)',
-        'own IAM RPCs = service Carrier declares all three of SetIamPolicy/GetIamPolicy/TestIamPermissions; in the two-service layouts '
+        'own IAM RPCs = service Carrier declares any subset of SetIamPolicy/GetIamPolicy/TestIamPermissions (proper subsets: one service, both '
+        'transports); the IAM mixin is read to yield as a whole iff an own RPC carries the name of a configured IAM mixin RPC (DESIGN 4 C17; '
+        'Inv_GroupYield); an own RPC with another IAM name withdraws nothing (Inv_YieldOnlyToSameNamed); in the two-service layouts '
         'a second service Other (ordinary RPCs) is declared after / before it and every client of both services is driven; own together with '
         'add-iam-methods is not generated (the two clauses of the property contradict each other there)',
         'with add-iam-methods the IAM methods have no http rule: REST calls of them are outside the property',
-        'http rules have a single binding with body "*" or no body; rule sets form an orthogonal array of strength 2 over '
-        '{absent, rule 1, rule 2}^10 plus all-on (thorough); quick = 11 fixed corners (one Ads, two with two services) + seeded sample',
+        'http rules have body "*" or no body and at most one additional binding of the same pattern (uri sorting before / after the primary); the REST '
+        'call must use the first matching binding in declaration order; rule sets form an orthogonal array of strength 2 over '
+        '{absent, rule 1, rule 2}^10 plus all-on (thorough); quick = 15 fixed corners (one Ads, two with two services, two with a proper subset of own IAM RPCs, two with additional bindings) + seeded sample',
         'the Ads template set and REST-only libraries have no asyncio client: the property is read over the clients that exist',
     ]
     chk.extra['configurations'] = len(keys)
